@@ -132,18 +132,19 @@ func (f *function) diffEnv() (bool, string, diff.ValueDiff, error) {
 		return false, "target has never been run", nil, nil
 	}
 
-	// Equal encodings decode to equal environments, however deep or cyclic they are.
+	// The encoding of an unchanged environment is always the same, so the target is up to date exactly
+	// when the encodings are equal, however deep or cyclic the environments are.
 	if f.newData == f.oldData {
 		return true, "", nil, nil
 	}
 
+	// The encodings differ, so the environment changed. The rest of this function only finds a readable
+	// reason for that. Environments that compare equal can still differ in ways the function observes
+	// (1 and 1.0, 0.0 and -0.0, one shared list and two equal lists), and environments that are too deep
+	// or cyclic cannot be compared structurally at all.
 	eq, err := starlark.EqualDepth(f.oldEnv, f.newEnv, 1000)
-	if err != nil {
-		// The encodings differ and the environments are too deep or cyclic to compare structurally.
+	if err != nil || eq {
 		return false, "environment changed", nil, nil
-	}
-	if eq {
-		return true, "", nil, nil
 	}
 
 	oldEnv, ok := f.oldEnv.(*starlark.Dict)
